@@ -365,4 +365,27 @@ Section Proofs.
     unfold requested in E. cbn [plookup] in E. rewrite ustr_eqb_refl in E. cbn [is_none] in E.
     apply pget_some in E as [E _]. unfold revoked_flag. now rewrite E.
   Qed.
+
+  (* ---- no clock reading can make a legal operation fail ---- *)
+  Lemma construct_total : forall c d x, plookup kmod d = Some x ->
+    (forall v0, c = CObject v0 -> exists r, parse_ts nm v0 (Some x) = Ok r) -> exists d', construct nm c d = Ok d'.
+  Proof.
+    intros c d x P H. unfold construct. fold kmod. rewrite P. destruct c as [v0| |]; eauto.
+    destruct (H v0 eq_refl) as [[l o] E]. rewrite E. eauto.
+  Qed.
+
+  Theorem nv_succeeds_lemma : forall c d ch v locked l o, check_versionable T c d = Ok v ->
+    revoked_flag d = false -> sco_locked T d = Ok locked ->
+    existsb (fun k => has_key k ch) (t_unmod T ++ locked) = false -> plookup kmod ch = None ->
+    parse_ts nm v (version_time d) = Ok (l, Some o) ->
+    forall now, exists d', new_version T nm c d ch now = Ok d'.
+  Proof.
+    intros c d ch v locked l o CV RV SL EX PM PO now. unfold new_version. rewrite CV.
+    fold (revoked_flag d). rewrite RV, SL, EX. fold (version_time d). rewrite PO. fold kmod. rewrite PM.
+    assert (F : exists l' o', fudge v (l, Some o) now = Ok (l', o')).
+    { unfold fudge, ts_diff. cbn [fst snd]. destruct v; [destruct (_ <? _)|destruct (_ <=? _)|destruct (_ <=? _)]; eauto. }
+    destruct F as (l' & o' & F). rewrite F.
+    apply construct_total with (PDt l' o'); [now apply plookup_kw_modified_clock|].
+    intros v0 _. rewrite parse_ts_dt. eauto.
+  Qed.
 End Proofs.
